@@ -87,7 +87,8 @@ class Harness:
         self.props = kv.get("props", "").split(",")
         self.tier = kv.get("tier", "quick")
         self.timeout = int(kv["timeout"]) if "timeout" in kv else None
-        self.mem = int(kv.get("mem", DEFAULT_MEM_GB))
+        self.mem = int(kv.get("mem", DEFAULT_MEM_GB))       # hard cap (ulimit -v), GB
+        self.est = int(kv.get("est", 3 if "mem" not in kv else max(3, int(kv["mem"]) // 2)))  # expected peak RSS for scheduling, GB
         self.flags = kv.get("flags", "")
         self.dead = int(kv.get("dead", 0))
         self.unwindset = kv.get("unwindset", "")  # E8: per-loop unwinding bounds "fn-regex:N;fn-regex:N"
@@ -256,12 +257,17 @@ def ensure_depcache(crate, logdir):
     return os.path.join(dc, "target")
 
 
+MEM_BUDGET_GB = int(os.environ.get("VERIF_MEM_GB", "48"))
+
+
 def run_pool(jobs, crate, dep_target, rundir, nworkers, on_done):
     q = queue.Queue()
     for j in jobs:
         q.put(j)
     results = {}
     lock = threading.Lock()
+    memcv = threading.Condition()
+    inuse = [0]
 
     def worker(slot):
         tdir = None
@@ -274,9 +280,19 @@ def run_pool(jobs, crate, dep_target, rundir, nworkers, on_done):
                 tdir = os.path.join(rundir, "t%d" % slot)
                 subprocess.run(["cp", "-a", dep_target, tdir], check=True)
             log = os.path.join(rundir, "logs", h.name + ".log")
+            # memory-aware admission: the sum of the expected peak sizes of running solvers stays within the budget
+            with memcv:
+                while inuse[0] > 0 and inuse[0] + h.est > MEM_BUDGET_GB:
+                    memcv.wait()
+                inuse[0] += h.est
             t0 = time.time()
             extra = h.flags.split(",") if h.flags else []
-            rc = sh(kani_cmd(h.full, tdir, extra), crate, log, timeout, h.mem, h.rmbody, h.unwindset)
+            try:
+                rc = sh(kani_cmd(h.full, tdir, extra), crate, log, timeout, h.mem, h.rmbody, h.unwindset)
+            finally:
+                with memcv:
+                    inuse[0] -= h.est
+                    memcv.notify_all()
             dt = time.time() - t0
             text = open(log, errors="replace").read()
             parsed = parse_log(text)
